@@ -177,7 +177,16 @@ class World(object):
   """A set of replacement instances for the module-level caches."""
 
   def __init__(self):
+    from dsim import boot
     self.repl = [(mod, k, type(v)()) for mod, k, v in _swappable()]
+    # module-level locks of malt (e.g. the linecache lock) get private stand-ins,
+    # so that a reference conversion can run as one atomic harness step even
+    # while a parked simulated thread owns the real one
+    for name, mod in list(sys.modules.items()):
+      if name == 'malt' or name.startswith('malt.'):
+        for k, v in list(vars(mod).items()):
+          if isinstance(v, boot.SimLock):
+            self.repl.append((mod, k, boot._real_RLock() if v.reentrant else boot._real_Lock()))
 
   def __enter__(self):
     self.saved = [(mod, k, getattr(mod, k)) for mod, k, _ in self.repl]
